@@ -65,17 +65,25 @@ func cmpHoldsGo(op string, c, v interface{}) bool {
 	return false
 }
 
-// the candidates of a comparison: the value at the path, or its elements too
-// when it is an array; under fan-out the merged elements only
+// the candidates of a comparison: the value at the path and, when it is an
+// array, its elements; under fan-out the same for every value found
 func cmpCandidates(d bson.D, p string) []interface{} {
 	dd := d
-	v, multi := bsonkit.All(&dd, p, true, true)
-	var out []interface{}
-	if arr, ok := v.(bson.A); ok {
-		out = append(out, arr...)
+	v, multi := bsonkit.All(&dd, p, true, false)
+	leaf := func(out []interface{}, x interface{}) []interface{} {
+		if arr, ok := x.(bson.A); ok {
+			out = append(out, arr...)
+		}
+		return append(out, x)
 	}
+	var out []interface{}
 	if !multi {
-		out = append(out, v)
+		return leaf(out, v)
+	}
+	if leaves, ok := v.(bson.A); ok {
+		for _, l := range leaves {
+			out = leaf(out, l)
+		}
 	}
 	return out
 }
